@@ -471,10 +471,12 @@ pub fn check(mut ctx: Ctx, replay: Option<J>) -> ! {
   let mut recs = vec![];
   let mut unsendable = 0;
   for v in &values {
-    for kind in ["json", "tck"] {
+    for kind in ["json", "tck", "jsonq"] {
       let r = echo_one(&mut client, v, kind);
       if r.is_null() {
-        unsendable += 1;
+        if kind != "jsonq" {
+          unsendable += 1;
+        }
       } else {
         recs.push(r);
       }
@@ -512,9 +514,21 @@ pub fn check(mut ctx: Ctx, replay: Option<J>) -> ! {
 }
 
 fn echo_one(c: &mut Client, v: &J, kind: &str) -> J {
-  if kind == "json" {
+  if kind == "json" || kind == "jsonq" {
+    // "jsonq": the same context with its key written as a string literal - for numbers, booleans, nulls and lists of
+    // them the body is then a JSON document as well as a FEEL context (the endpoint takes a FEEL context)
+    fn json_like(v: &J) -> bool {
+      match v["k"].as_str().unwrap_or("") {
+        "num" | "bool" | "null" => true,
+        "list" => v["items"].as_array().map_or(false, |a| a.iter().all(json_like)),
+        _ => false,
+      }
+    }
+    if kind == "jsonq" && !json_like(v) {
+      return J::Null;
+    }
     // the value the decision will return = what the library makes of the input text
-    let text = format!("{{x: {}}}", feel_literal(v));
+    let text = if kind == "jsonq" { format!("{{\"x\": {}}}", feel_literal(v)) } else { format!("{{x: {}}}", feel_literal(v)) };
     let scope = dmntk_feel::Scope::default();
     let Ok(input) = dmntk_feel_evaluator::evaluate_context(&scope, &text) else { return J::Null };
     let Some(x) = input.get_entry(&dmntk_feel::Name::from("x")) else { return J::Null };
